@@ -55,9 +55,7 @@ def launch(spec, rounds):
         return r
 
     def interp(self, consts, model, variables, tc, interpreter, pfm, optimization_type, title="Untitled"):
-        path = ci.csv_path(results_dir, title)
-        if os.path.exists(path):
-            os.remove(path)
+        path = ci.csv_path(results_dir, title)   # NOT removed first: a run saved under a title used before must replace it
         I = o_int(self, consts, model, variables, tc, interpreter, pfm, optimization_type, title)
         E = grabbed.get("E")
         n = int(consts["NMONTHS"])
@@ -253,17 +251,26 @@ def slim(rec):
 
 
 def one(job):
+    """spec = one run, or {"chain": [spec, ...]}: runs executed one after the other in this process under the SAME title
+    and results directory (as run_model_no_trade does for all countries of one simulation); every round of every
+    run of the chain is audited right after it returns, so the CSV must hold the result just returned."""
     idx, spec, want = job
     rounds = []
     out = {"idx": idx, "spec": spec, "error": None}
-    try:
-        launch(spec, rounds)
-    except BaseException as e:  # noqa
-        out["error"] = classify(e) + ": " + repr(e)[:300]
-        out["trace"] = traceback.format_exc()[-1500:]
+    chain = spec["chain"] if "chain" in spec else [spec]
+    for pos, sp in enumerate(chain):
+        before = len(rounds)
+        try:
+            launch(sp, rounds)
+        except BaseException as e:  # noqa
+            out["error"] = classify(e) + ": " + repr(e)[:300]
+            out["trace"] = traceback.format_exc()[-1500:]
+        for rec in rounds[before:]:
+            rec["chain_pos"] = pos
     out["rounds"] = []
     for rec in rounds:
         r = slim(rec)
+        r["chain_pos"] = rec.get("chain_pos", 0)
         r["failures"] = audit_round(rec)
         r["nontrivial"] = nontrivial(rec)
         if want:
